@@ -16,6 +16,7 @@ import (
 )
 
 type Engine struct {
+	calleePropsMemo map[string]map[string]bool
 	repo       string
 	pkg        *packages.Package
 	fset       *token.FileSet
@@ -357,6 +358,66 @@ func canonTypeString(t types.Type) string {
 
 // fieldWriters lists the functions that write (assign, inc/dec, atomic op on,
 // or take the address of) the struct field "Struct.field".
+// calleeProps: the properties named by what the contracts of the functions
+// called in q's body demand of their callers (tagged preconditions, caller
+// whitelists, callback contracts). A check of such a property must look at q
+// even when no clause of q's own contract carries the tag.
+func (e *Engine) calleeProps(q string) map[string]bool {
+	if e.calleePropsMemo == nil {
+		e.calleePropsMemo = map[string]map[string]bool{}
+	}
+	if m, ok := e.calleePropsMemo[q]; ok {
+		return m
+	}
+	m := map[string]bool{}
+	e.calleePropsMemo[q] = m
+	fd := e.funcs[q]
+	if fd == nil || fd.Body == nil {
+		return m
+	}
+	ast.Inspect(fd.Body, func(n ast.Node) bool {
+		call, ok := n.(*ast.CallExpr)
+		if !ok {
+			return true
+		}
+		var id *ast.Ident
+		switch f := call.Fun.(type) {
+		case *ast.Ident:
+			id = f
+		case *ast.SelectorExpr:
+			id = f.Sel
+		}
+		if id == nil {
+			return true
+		}
+		fn, ok := e.info.Uses[id].(*types.Func)
+		if !ok {
+			return true
+		}
+		c := e.cf.Contracts[funcQual(fn)]
+		if c == nil {
+			return true
+		}
+		for _, r := range c.Requires {
+			if !r.Free {
+				for _, p := range r.Props {
+					m[p] = true
+				}
+			}
+		}
+		for _, p := range c.CallersProps {
+			m[p] = true
+		}
+		for _, cb := range c.Callbacks {
+			for _, p := range cb.Props {
+				m[p] = true
+			}
+		}
+		return true
+	})
+	return m
+}
+
 func (e *Engine) fieldWriters(key string) []string {
 	sn, fn, ok := strings.Cut(key, ".")
 	if !ok {
